@@ -271,6 +271,11 @@ fn vis_options(cfg: &Cfg) -> VisualSortOptions {
     let mut r = crate::rng::Rng::for_case(h.get(), 0, 0);
     r.shuffle(&mut order);
     let mut o = VisualSortOptions::default();
+    // a third of the constrained configurations derive their options from a "base" that already carries another (much
+    // tighter) table: the setter called later REPLACES the table - the tracker runs with the table it was given last
+    if cfg.constraints.is_some() && r.chance(0.33) {
+        o = o.spatio_temporal_constraints(SpatioTemporalConstraints::new().constraints(&[(1, 1e-4), (2, 2e-4), (64, 3e-4)]));
+    }
     for k in order {
         o = match k {
             0 => o.max_idle_epochs(cfg.max_idle),
